@@ -1,5 +1,12 @@
-//! Engine `once` (C12): schedule-driven executors on ONE real `breakpad_symbols::Symbolizer`
+//! Engine `once` (C12): schedule-driven executors on real `breakpad_symbols::Symbolizer`s
 //! against the Lean model `MdModel.Once`, plus the property's own oracle on the implementation.
+//! Three kinds of case lines:
+//!   `once run ..`   one Symbolizer, programs of module keys (fill_symbol / walk_frame), see below
+//!   `once req ..`   all request kinds (fill_symbol, walk_frame, get_file_path x FileKind), module
+//!                   identity variants, 0..3 providers behind a real MultiSymbolProvider, per-provider
+//!                   pending_stats()/stats(), executors a/w/j and m (tokio multi-thread, 4 workers)
+//!   `once http ..`  HttpSymbolSupplier::locate_file_internal / locate_symbols against a loopback
+//!                   server that counts requests
 //!
 //! case line:  `once run x:<a|w|j> tasks:<k[w],k[w],..;..> sup:<k=delay:res,..> sched:<n,n,..|->`
 //!   tasks   one program per task: the module keys it looks up in order; a `w` suffix makes that
@@ -2658,10 +2665,10 @@ impl Engine for Once {
         "once"
     }
     fn rule(&self) -> String {
-        "case = (executor, one program of module keys per task, supplier table key -> (suspensions, outcome), poll schedule). Exhaustive part: ALL poll sequences (leaves of the prefix-closed tree; the trace is compared after every poll, so every prefix is covered) of length 2*lookups+suspensions (2 tasks, capped at 11 quick / 12 thorough) resp. lookups+suspensions+3|4 (3 tasks, capped at 8 / 9) for 2 tasks x <=2 lookups x <=2 keys x <=2 suspensions and 3 tasks x 1 lookup x 2 keys x <=1 suspension, arbitrary-poll executor; random part: 2..4 tasks x 1..3 lookups x 1..3 keys x 0..3 suspensions x outcomes ok/nf/pe under the arbitrary-poll executor (random schedules with spurious polls), the waker-respecting executor (random choices among woken tasks) and join_all on a tokio runtime. non-trivial = at least two tasks ask for a common key and at least one poll found the lock taken (blocked poll) or the run used >= 2 tasks with a suspending supplier; distinct = distinct case line".into()
+        "[run] case = (executor, one program of module keys per task, supplier table key -> (suspensions, outcome), poll schedule). Exhaustive part: ALL poll sequences (leaves of the prefix-closed tree; the trace is compared after every poll, so every prefix is covered) of length 2*lookups+suspensions (2 tasks, capped at 11 quick / 12 thorough) resp. lookups+suspensions+3|4 (3 tasks, capped at 8 / 9) for 2 tasks x <=2 lookups x <=2 keys x <=2 suspensions and 3 tasks x 1 lookup x 2 keys x <=1 suspension, arbitrary-poll executor; random part: 2..4 tasks x 1..3 lookups x 1..3 keys x 0..3 suspensions x outcomes ok/nf/pe under the arbitrary-poll executor (random schedules with spurious polls), the waker-respecting executor (random choices among woken tasks) and join_all on a tokio runtime. [req] case = (executor, module table of identities (code file absent/empty/path, code id, debug file, debug id, each possibly None), 0..3 providers = real Symbolizers over mock suppliers behind a real MultiSymbolProvider (or one bare Symbolizer), one program of requests per task: fill_symbol / walk_frame / get_file_path(kind) on a module, per provider locate_symbols table (suspensions, ok-with-CFI / ok-without-CFI / NotFound / ParseError) and locate_file table, poll schedule); compared after every poll: supplier calls and returns, what every provider answered to which request, the combined answers, pending_stats() of every provider and of the MultiSymbolProvider, wake and finished flags; at the end also stats() of every provider and the merged one. Exhaustive part: ALL poll sequences up to the completion length (cap 9 quick / 11 thorough) of 2 tasks over 8 request-program pairs x {bare, 1, 2 providers} x outcome profiles x suspension profiles; module identity: every subset of the four components differing in every way (value, None vs Some, absent vs empty code file) x {bare, 2 providers} x 4 schedules; random: 2..4 tasks x 1..3 requests x 1..4 modules (same-key duplicates, one-component variants, shared leaf names) x 0..3 providers x executors a/w/j/m; multi-thread smoke run: 4..8 tasks spawned on a tokio multi-thread runtime with 4 workers, suspending suppliers that keep the lock ~30us per suspension (final summary and oracle only: SAMPLING of real parallel polls). [http] case = (executor j/m, module table, 0..3 server URLs, request programs of locate_file_internal(kind) / fill_symbol, per (module key, kind) which server answers 200 and whether the file is already in the cache directory): final answers, pending_stats and the per-server GET counts are compared. non-trivial = at least two tasks ask for a common key and at least one poll found the lock taken (blocked poll), or a runtime executor ran >= 2 such tasks with a suspending supplier / real HTTP; distinct = distinct case line".into()
     }
     fn exhaustive_part(&self) -> Option<String> {
-        Some("all poll sequences (task ids incl. spurious polls) up to the length bound for every configuration of 2 tasks x <=2 lookups x <=2 keys x <=2 suspensions (up to task/key symmetry) and 3 tasks x 1 lookup x 2 keys x <=1 suspension, compared with the model after every poll".into())
+        Some("all poll sequences (task ids incl. spurious polls) up to the length bound for every configuration of 2 tasks x <=2 lookups x <=2 keys x <=2 suspensions (up to task/key symmetry) and 3 tasks x 1 lookup x 2 keys x <=1 suspension [run]; all poll sequences up to the completion length of 2 tasks over 8 program pairs mixing fill_symbol / walk_frame / get_file_path x {bare Symbolizer, MultiSymbolProvider with 1 and 2 providers} x outcome and suspension profiles [req]; all 16 subsets of differing identity components [req]; each compared with the model after every poll".into())
     }
 
     fn generate(&self, tier: Tier, rng: &mut Rng, emit: &mut dyn FnMut(String)) {
